@@ -382,6 +382,23 @@ func init() {
 	I["internal/godebug.(*Setting).Value"] = func(p *Path, c *frame, fn *ssa.Function, a []value) value { return "" }
 	I["internal/godebug.New"] = func(p *Path, c *frame, fn *ssa.Function, a []value) value { return (*value)(nil) }
 
+	// bytes.Index as a whole (its fast paths end in assembly and CPU-feature dependent cut-overs): first position
+	// at which every byte of the pattern matches, forking per candidate position like IndexByte
+	I["bytes.Index"] = func(p *Path, c *frame, fn *ssa.Function, a []value) value {
+		s := p.elems(a[0].(*sliceV), "bytes.Index")
+		pat := p.elems(a[1].(*sliceV), "bytes.Index pattern")
+		for i := 0; i+len(pat) <= len(s); i++ {
+			m := p.tt.tru
+			for j := range pat {
+				m = p.tt.BAnd(m, p.tt.Eq(s[i+j].(*Term), pat[j].(*Term)))
+			}
+			if p.branch(m) {
+				return p.i64(int64(i))
+			}
+		}
+		return p.i64(-1)
+	}
+
 	// ---- bytealg ----
 	I["internal/bytealg.IndexByte"] = func(p *Path, c *frame, fn *ssa.Function, a []value) value {
 		return p.indexByte(p.elems(a[0].(*sliceV), "IndexByte"), a[1].(*Term))
